@@ -137,6 +137,12 @@ type mgrProxy struct {
 	pokertable.TableEngine // the real engine: callbacks, GetTable, GetGame, CreateTable
 	c                      *mgrCtx
 	id                     string
+	// calls of this table that are in flight, and the lines of calls that finished while an earlier one still was: the
+	// registry model judges a call by whether the table was registered when the call *began* (the manager's lookup comes
+	// first), so a call made from inside another call's notification (a release from a listener, say) is written after it
+	pmu      sync.Mutex
+	depth    int
+	deferred []string
 }
 
 func wrapForManager(c *mgrCtx, engine pokertable.TableEngine, tableID string) pokertable.TableEngine {
@@ -160,14 +166,30 @@ func (p *mgrProxy) fwd(name string, via func() error, direct func() error) error
 		c.ghost()
 	}
 	pre := c.twinJSON()
+	p.pmu.Lock()
+	p.depth++
+	p.pmu.Unlock()
 	err := via()
 	post := c.twinJSON()
 	same := 1
 	if pre != post {
 		same = 0
 	}
+	line := fmt.Sprintf("mg call t=%s name=%s | res=%s twin=%d", p.id, name, resClass(err), same)
+	p.pmu.Lock()
+	p.depth--
+	var out []string
+	if p.depth > 0 {
+		p.deferred = append(p.deferred, line)
+	} else {
+		out = append([]string{line}, p.deferred...)
+		p.deferred = nil
+	}
+	p.pmu.Unlock()
 	c.mu.Lock()
-	c.log("mg call t=%s name=%s | res=%s twin=%d", p.id, name, resClass(err), same)
+	for _, l := range out {
+		c.log("%s", l)
+	}
 	c.calls[name]++
 	c.mu.Unlock()
 	if errors.Is(err, pokertable.ErrManagerTableNotFound) {
